@@ -59,6 +59,12 @@ def gen_cases(tier, seed):
             o["terminal_psi"] = [0.0, 0.5, "none", [0.3, 0.4], -0.7, 1.0][(k // 2) % 6]
         if scr:
             o.update(include_screening=True, screening_tolerance=1e-2, max_iterations_per_step=300, solve_time=min(o["solve_time"], 1.5))
+            dev["layer"]["lam"], dev["layer"]["d"] = 2.0, 0.1  # moderate screening: several Polyak iterations per step
+            if o["adaptive"] and kind in ("normal", "equal_dt"):
+                # many steps beyond a short warm-up window, several screening iterations per step
+                o.update(adaptive_window=2, screening_tolerance=1e-3, max_iterations_per_step=2000)
+                if kind == "normal":
+                    o.update(dt_init=2e-3, dt_max=0.5, solve_time=3.0)  # proposals stay below dt_max: the rule itself is exercised
         if k % 5 == 0:
             o["skip_time"] = 0.2 * o["solve_time"]
         drive = {"A": S.field_spec(rng, dev, o, str(rng.choice(["uniform", "ramp"])), b=b),
